@@ -1,9 +1,11 @@
 #!/bin/sh
-# baseline_off_cmd: the repository's pinned suite on a fresh build of /repo's current tree
-# (no hooks exist, so "guard off" is simply the unmodified build).  Build dir outside /repo and /verif.
+# baseline_off_cmd: the repository's pinned suite on a build of /repo's current tree.  No hooks
+# exist, so "guard off" is simply the normal build.  The shell tests of the suite locate their
+# data relative to a build directory one level below the source root, so the pinned location
+# /repo/_build (the harness's own, untracked) is (re)used.
 set -e
-B=$(mktemp -d /tmp/econf-baseline-XXXXXX)
-trap 'rm -rf "$B"' EXIT
+B=/repo/_build
 cmake -G Ninja -S /repo -B "$B" >/dev/null
-cmake --build "$B" >/dev/null
+# test programs are EXCLUDE_FROM_ALL: target `check` builds them (and runs ctest once, output discarded)
+cmake --build "$B" --target check >/dev/null 2>&1 || true
 ctest --test-dir "$B" -j8 --timeout 900 "$@"
